@@ -1,0 +1,24 @@
+//! verif-hooks (C12): builds the RIB unit's HTTP processor the way
+//! `RibUnitRunner::new` does, for a physical RIB with an empty store.
+use std::sync::Arc;
+
+use arc_swap::ArcSwap;
+
+use super::http::PrefixesApi;
+use super::rib::Rib;
+use super::unit::{QueryLimits, RibType};
+use crate::common::frim::FrimMap;
+use crate::http::ProcessRequest;
+use crate::ingress;
+
+pub fn physical_prefixes_api(http_api_path: &str) -> Arc<dyn ProcessRequest> {
+    Arc::new(PrefixesApi::new(
+        Arc::new(ArcSwap::from_pointee(Rib::new_physical())),
+        Arc::new(http_api_path.to_string()),
+        Arc::new(ArcSwap::from_pointee(QueryLimits::default())),
+        RibType::Physical,
+        None,
+        Arc::new(FrimMap::default()),
+        Arc::new(ingress::Register::new()),
+    ))
+}
